@@ -24,7 +24,16 @@ TProbe ==
               \cup Flg(R.r.fds_left # 0, "descriptor_leaked_after_drop")
               \cup Flg(R.r.wit_unreg # 1, "foreign_registration_removed")
 
-TraceSpec == TInit /\ [][TProbe]_tvars
+\* the last two owners (instance and a handle) dropped at the same time on two threads, many times
+TDropStress ==
+    /\ l <= Len(Rec) /\ R.e = "signals_dropstress" /\ l' = l + 1
+    /\ IF R.status # "exited:0"
+       THEN viol' = viol \cup {"process_aborted"}
+       ELSE viol' = viol
+              \cup Flg(R.r.leaked_rounds > 0, "registration_leaked_after_drop")
+              \cup Flg(R.r.fds_left # 0, "descriptor_leaked_after_drop")
+
+TraceSpec == TInit /\ [][TProbe \/ TDropStress]_tvars
 TraceAccepted ==
     LET d == TLCGet("stats").diameter IN
     IF d - 1 = Len(Rec) THEN TRUE ELSE Print(<<"TRACE_REJECTED", d, Rec[d]>>, FALSE)
